@@ -24,7 +24,7 @@ CFG = dict(
          "distinct+non-trivial = (handler, network mode, event kind, sequence of fetch outcomes and non-empty dispatch)",
     trusted_base=["mock slot ticker / wall clock / beacon node / validator controller of the harness; barrier = a ReorgEvent{Previous:false,Current:false} passing through the handler's select loop",
                   "in small-network cases the slot/epoch/period arithmetic of the mocked BeaconNetwork mirrors beacon.Network with the two parameters replaced (real-network cases use the real beacon.Network)",
-                  "the oracle's reading of 'fetched successfully': most recent fetch for the epoch/period succeeded and no fetch failed or was skipped since"],
+                  "the oracle's reading of 'fetched successfully': the most recent SUCCESSFUL assignment of the epoch/period stays owed across later failed fetches, unless a reorg / indices-change notice declared it out of date and the re-fetch of that epoch/period failed (the Lean monitor is weaker: any failed fetch voids the obligations until the next success)"],
     assumptions=["the slot ticker delivers strictly increasing slots (real slotticker: `nextSlot <= s.slot` guard)",
                  "exactly-once clause: the handler's select loop does not take a tick after a notice that carries a later slot (notices may be arbitrarily late)",
                  "ExecuteDuties (goroutine per duty, one-third-slot wait) hands every duty it is given to the executor exactly once — outside the model",
